@@ -258,6 +258,10 @@ func (c *FCGIClient) writePairs(recType uint8, pairs map[string]string) error {
 		if m > maxWrite {
 			// param data size exceed 65535 bytes"
 			vl := maxWrite - 8 - len(k)
+			if vl < 0 {
+				// not even the name fits in a record; the pair cannot be sent
+				continue
+			}
 			v = v[:vl]
 		}
 		n := encodeSize(b, uint32(len(k)))
@@ -395,9 +399,15 @@ func (c *FCGIClient) Do(p map[string]string, req io.Reader) (r io.Reader, err er
 
 	body := newWriter(c, Stdin)
 	if req != nil {
-		_, _ = io.Copy(body, req)
+		if _, err = io.Copy(body, req); err != nil {
+			// the request body could not be read completely (or not be
+			// sent); do not end the stdin stream as if it were complete
+			return
+		}
 	}
-	body.Close()
+	if err = body.Close(); err != nil {
+		return
+	}
 
 	r = &streamReader{c: c}
 	return
